@@ -40,13 +40,13 @@ def mintCoins (s : State) (module : Addr) (c : Coin) : M State := do
 def fundCommunityPool (s : State) (frm : Addr) (c : Coin) : M State :=
   if c.amount = 0 then pure s else sendCoins s frm distrAddr c
 
+/-- Move the whole fee-collector balance of one denomination to the distribution module account. -/
+def sweepDenom (s : State) (d : Denom) : State :=
+  setBalance (setBalance s feeCollectorAddr d 0) distrAddr d (balance s distrAddr d + balance s feeCollectorAddr d)
+
 /-- The distribution BeginBlocker (height > 1) moves the whole fee-collector balance to the
-distribution module account. Applied to every tracked denomination. -/
+distribution module account, in every denomination it holds. -/
 def distrSweep (s : State) : State :=
-  let fees := s.bank.filter (fun p => p.1.1 = feeCollectorAddr)
-  fees.foldl (fun s p =>
-    let d := p.1.2
-    let s := setBalance s feeCollectorAddr d 0
-    setBalance s distrAddr d (balance s distrAddr d + p.2)) s
+  ((s.bank.filter (fun p => p.1.1 = feeCollectorAddr)).map (·.1.2)).foldl sweepDenom s
 
 end Hub.Model
